@@ -312,6 +312,9 @@ func (a *Analyzer) decideErrSite(s *ErrSite, k int) {
 						}
 					}
 				}
+				if bi, ok := cc.Value.(*ssa.Builtin); ok && bi.Name() == "append" {
+					escaped = "appended to a slice"
+				}
 				if cv, ok := r.(*ssa.Call); ok {
 					if errResultIndex(cc.Signature()) >= 0 {
 						// wrapper: the callee's error result stands for e from here on
@@ -341,6 +344,10 @@ func (a *Analyzer) decideErrSite(s *ErrSite, k int) {
 		}
 		for i := from; i < len(b.Instrs); i++ {
 			in := b.Instrs[i]
+			if in == ssa.Instruction(call) && !(b == call.Block() && from > 0 && i < from) {
+				drops = append(drops, drop{a.P.InstrPos(in), "is the same call again: the earlier error is overwritten by the next execution before anything examined it"})
+				return
+			}
 			if abortCalls[in] {
 				handledHow["handed to aborting call "+shortCallee(in.(ssa.CallInstruction))] = true
 				return
